@@ -273,7 +273,7 @@ func tamper(rt *rapid.T, nodes *[]*wmpt.PersistNodeBase, other []*wmpt.PersistNo
 			branches = append(branches, i)
 		}
 	}
-	kinds := []string{"scale-weights", "swap-siblings", "replace-child-hash", "edit-embedded-short", "substitute-element", "insert-foreign-element", "insert-foreign-element", "drop", "duplicate", "reorder", "claimed-hash", "leaf-value", "leaf-weight", "short-key", "short-child-ref"}
+	kinds := []string{"scale-weights", "swap-siblings", "replace-child-hash", "edit-embedded-short", "substitute-element", "insert-foreign-element", "insert-foreign-element", "drop", "duplicate", "reorder", "claimed-hash", "leaf-value", "leaf-weight", "short-key", "short-child-ref", "relink-value", "relink-value"}
 	if allowReweight {
 		kinds = append(kinds, "reweight-keep-sum", "reweight-keep-sum")
 	}
@@ -421,6 +421,52 @@ func tamper(rt *rapid.T, nodes *[]*wmpt.PersistNodeBase, other []*wmpt.PersistNo
 		case n.Value != nil:
 			n.Value.Hash = flip(n.Value.Hash)
 		}
+	case "relink-value":
+		// a coordinated forgery: another value (same weight) in the value record, with its correct hash, and the
+		// reference to it in the element above re-linked to that hash; every claimed hash above stays what it was
+		vi := -1
+		for i, n := range ns {
+			if n.Value != nil {
+				vi = i
+			}
+		}
+		if vi < 1 {
+			return ""
+		}
+		val := ns[vi].Value
+		oldHash := append([]byte(nil), val.Hash...)
+		v := append([]byte(nil), val.Value...)
+		if len(v) == 0 {
+			return ""
+		}
+		v[gen.Uniform(rt, 0, len(v)-1, label+"pos")] ^= 0x20
+		nv := *val
+		nv.Value, nv.Hash = v, refwmpt.ValueHash(v, val.Weight)
+		relinked := false
+		for up := vi - 1; up >= 0 && !relinked; up-- {
+			switch p := ns[up]; {
+			case p.Short != nil && len(p.Short.Value) == 40 && bytes.Equal(p.Short.Value[:32], oldHash):
+				sh := *p.Short
+				sh.Value = append(append([]byte(nil), nv.Hash...), p.Short.Value[32:]...)
+				ns[up] = &wmpt.PersistNodeBase{Short: &sh}
+				relinked = true
+			case p.Branch != nil:
+				for ci, c := range p.Branch.Children {
+					if len(c) == 40 && bytes.Equal(c[:32], oldHash) {
+						br := *p.Branch
+						br.Children = append([][]byte(nil), p.Branch.Children...)
+						br.Children[ci] = append(append([]byte(nil), nv.Hash...), c[32:]...)
+						ns[up] = &wmpt.PersistNodeBase{Branch: &br}
+						relinked = true
+						break
+					}
+				}
+			}
+		}
+		if !relinked {
+			return ""
+		}
+		ns[vi] = &wmpt.PersistNodeBase{Value: &nv}
 	case "leaf-value", "leaf-weight":
 		for _, n := range ns {
 			if n.Value != nil {
